@@ -861,6 +861,27 @@ template <class K> Result execVec(const std::string& op, const std::vector<std::
       if (res.oracle == "ok" && !(s0 == a.e[0])) res.oracle = "FAIL the scalar behind the view is " + encList<K>(std::vector<K>{s0}, ok) + " after the call, it was " + encList<K>(a.e, ok) + " (operand modified)";
       return res;
     }
+    if ((op == "vplus" || op == "vminus") && two && b.kind != "SC") {
+      // asVector(s) + v, asVector(s) - v: the result and what the scalar s holds afterwards (s is an operand taken as input only)
+      K s0 = a.e[0];
+      auto V = Dune::Impl::asVector(s0);
+      bool bmodv = false;
+      bool done = withVec<K, 1>(b, [&](auto& y) {
+        if (op == "vplus") { auto R = std::as_const(V) + y; got = readVec<K>(R, 1); }
+        else { auto R = std::as_const(V) - y; got = readVec<K>(R, 1); }
+        if (readVec<K>(y, 1) != b.e) bmodv = true;
+      });
+      if (!done) return badOp("operand");
+      K shown = V[0];
+      if (!(shown == s0)) viewIncoherent() = true;
+      bool ok = true;
+      stat(op == "vplus" ? "op_vplus" : "op_vminus"); stat("vbin_SC"); stat("vsize_1");
+      Result res = vecResult<K>(got, expect, "");
+      res.impl += " stored=" + encList<K>(std::vector<K>{s0}, ok);
+      if (res.oracle == "ok" && !(s0 == a.e[0])) res.oracle = "FAIL the scalar behind the view is " + encList<K>(std::vector<K>{s0}, ok) + " after the call, it was " + encList<K>(a.e, ok) + " (operand modified)";
+      if (res.oracle == "ok" && bmodv) res.oracle = "FAIL the second operand was modified";
+      return res;
+    }
     if (!two || b.kind != "SC") return badOp("scalar operands");
     K x = a.e[0], y = b.e[0];
     if (op == "fdot") { got = {Dune::dot(x, y)}; ran = true; }
@@ -2048,6 +2069,7 @@ static std::string genOnce(Rng& rng) {
     int n = one ? 1 : ka == "FV" || (two && kb == "FV") ? 1 + (int)r.below(4) : 1 + (int)r.below(6);
     if ((op == "fdot" || op == "fdotT") && r.coin(1, 3)) { ka = kb = "SC"; n = 1; }
     if (op == "vneg" && r.coin(1, 3)) { ka = "SC"; n = 1; }   // unary minus of the view asVector(s)
+    if ((op == "vplus" || op == "vminus") && r.coin(1, 3)) { ka = "SC"; n = 1; }   // asVector(s) + v, asVector(s) - v
     bool div = op == "vdiv" || op == "vover" || op == "v1_over_s" || op == "s_over_v1";
     std::string aStr, sStr = g.scalars(1);
     if (div) {
